@@ -184,7 +184,7 @@ func runC09(c *Ctx) {
 		t := p.newTermer()
 		t.at = call
 		got := t.Term(call.Common().Args[0])
-		if got == "((Sample(<obfs4Conn>.iatDist)*100)*1000)" {
+		if termEq(got, "((Sample(<obfs4Conn>.iatDist)*100)*1000)") {
 			bad = ""
 		} else {
 			bad = "the delay is " + got
